@@ -1,4 +1,304 @@
-import GeomV.C04.Model
-import GeomV.C04.Spec
+import GeomV.C04.Lemmas
+/-!
+# C04 — property theorems
+
+`α` is an arbitrary linear order with least and greatest element (`-Inf`, `+Inf`): the statements hold
+for every coordinate value including infinities; the sign of zero is invisible because the order
+is on values.  Geometries range over all of `Geom α` (eight types, nested collections, any number
+of empty members anywhere).
+-/
+set_option linter.unusedSimpArgs false
+set_option linter.unusedVariables false
+set_option linter.unusedSectionVars false
 namespace GeomV.C04
+open GeomV GeomV.C04.Spec
+attribute [local instance] infOfBounded
+
+/-! ## Len -/
+
+section len
+variable {α : Type}
+
+mutual
+/-- **C04_len.** `Len()` is the number of vertices, for every geometry without nil members. -/
+theorem C04_len (g : Geom α) (h : noNil g = true) : lenG g = .ok (vertices g).length := by
+  cases g with
+  | collection gs => simp only [lenG, vertices]; exact C04_lenL gs (by simpa [noNil] using h)
+  | nil => simp [noNil] at h
+  | point p => rfl
+  | multiPoint ps => rfl
+  | lineString ps => rfl
+  | multiLineString ls => simp [lenG, vertices, sumLen_eq]
+  | polygon rs => simp [lenG, vertices, sumLen_eq]
+  | multiPolygon ps => simp [lenG, vertices, sumLen2_eq]
+  | bounds mn mx => rfl
+theorem C04_lenL (gs : List (Geom α)) (h : noNilL gs = true) : lenL gs = .ok (verticesL gs).length := by
+  cases gs with
+  | nil => rfl
+  | cons g gs =>
+    simp only [noNilL, Bool.and_eq_true] at h
+    simp [lenL, verticesL, C04_len g h.1, C04_lenL gs h.2, bind, Except.bind, pure, Except.pure]
+end
+
+end len
+
+section boxes
+variable {α : Type} [LinearOrder α] [BoundedOrder α]
+
+/-! ## boxes -/
+
+/-- **C04_copy.** `Copy` returns an equal box. -/
+theorem C04_copy (b : Box α) : b.copy = b := rfl
+
+/-- `Empty()` is true exactly when the box has no point. -/
+theorem C04_empty (b : Box α) : b.empty = true ↔ NoPoint b := by
+  rw [model_empty_eq, emptyB_iff]
+
+/-- **C04_overlaps.** For boxes that have points, `Overlaps` is true exactly when the closed boxes
+share a point. -/
+theorem C04_overlaps (a b : Box α) (ha : emptyB a = false) (hb : emptyB b = false) :
+    a.overlaps b = true ↔ SharePoint a b := by
+  obtain ⟨ax, ay⟩ := (not_emptyB a).1 ha
+  obtain ⟨bx, by'⟩ := (not_emptyB b).1 hb
+  simp only [Box.overlaps, Bool.and_eq_true, decide_eq_true_eq, SharePoint, mem]
+  constructor
+  · rintro ⟨⟨⟨h1, h2⟩, h3⟩, h4⟩
+    exact ⟨⟨max a.mn.x b.mn.x, max a.mn.y b.mn.y⟩,
+      ⟨le_max_left _ _, max_le ax h3, le_max_left _ _, max_le ay h4⟩,
+      ⟨le_max_right _ _, max_le h1 bx, le_max_right _ _, max_le h2 by'⟩⟩
+  · rintro ⟨p, ⟨a1, a2, a3, a4⟩, ⟨b1, b2, b3, b4⟩⟩
+    exact ⟨⟨⟨le_trans a1 b2, le_trans a3 b4⟩, le_trans b1 a2⟩, le_trans b3 a4⟩
+
+/-- Without the hypothesis the statement is false: the empty box "overlaps" the whole plane. -/
+theorem C04_overlaps_emptybox_counterexample (h : (⊥ : α) < ⊤) :
+    (Box.new : Box α).overlaps ⟨⟨⊥, ⊥⟩, ⟨⊤, ⊤⟩⟩ = true ∧ ¬ SharePoint (Box.new : Box α) ⟨⟨⊥, ⊥⟩, ⟨⊤, ⊤⟩⟩ := by
+  constructor
+  · simp [Box.overlaps, Box.new, pinf_eq, ninf_eq]
+  · rintro ⟨p, ⟨h1, h2, _, _⟩, _⟩
+    simp only [Box.new, pinf_eq, ninf_eq] at h1 h2
+    exact absurd (le_trans h1 h2) (not_le.mpr h)
+
+theorem lo_hi_area (a b : Box α) :
+    HasCommonArea a b ↔ (max a.mn.x b.mn.x < min a.mx.x b.mx.x ∧ max a.mn.y b.mn.y < min a.mx.y b.mx.y) := by
+  constructor
+  · rintro ⟨p, q, ⟨pa1, _, pa3, _⟩, ⟨pb1, _, pb3, _⟩, ⟨_, qa2, _, qa4⟩, ⟨_, qb2, _, qb4⟩, hx, hy⟩
+    exact ⟨lt_of_le_of_lt (max_le pa1 pb1) (lt_of_lt_of_le hx (le_min qa2 qb2)),
+           lt_of_le_of_lt (max_le pa3 pb3) (lt_of_lt_of_le hy (le_min qa4 qb4))⟩
+  · rintro ⟨hx, hy⟩
+    have hx' := le_of_lt hx
+    have hy' := le_of_lt hy
+    refine ⟨⟨max a.mn.x b.mn.x, max a.mn.y b.mn.y⟩, ⟨min a.mx.x b.mx.x, min a.mx.y b.mx.y⟩, ?_, ?_, ?_, ?_, hx, hy⟩
+    · exact ⟨le_max_left _ _, le_trans hx' (min_le_left _ _), le_max_left _ _, le_trans hy' (min_le_left _ _)⟩
+    · exact ⟨le_max_right _ _, le_trans hx' (min_le_right _ _), le_max_right _ _, le_trans hy' (min_le_right _ _)⟩
+    · exact ⟨le_trans (le_max_left _ _) hx', min_le_left _ _, le_trans (le_max_left _ _) hy', min_le_left _ _⟩
+    · exact ⟨le_trans (le_max_right _ _) hx', min_le_right _ _, le_trans (le_max_right _ _) hy', min_le_right _ _⟩
+
+theorem commonRect_lo_hi (a b : Box α) : IsCommonRect a b ⟨lo a b, hi a b⟩ := by
+  intro p
+  simp only [mem, lo, hi, max_le_iff, le_min_iff]
+  tauto
+
+/-- **C04_intersection.** For all boxes (empty or not): box–box `Intersection` is nil exactly when
+the boxes share no area, and otherwise it is exactly their common rectangle. -/
+theorem C04_intersection (a b : Box α) :
+    (a.intersection b = none ↔ ¬ HasCommonArea a b) ∧
+    (∀ r, a.intersection b = some r → IsCommonRect a b r ∧ HasCommonArea a b) := by
+  rw [lo_hi_area]
+  simp only [Box.intersection]
+  by_cases hx : min a.mx.x b.mx.x ≤ max a.mn.x b.mn.x
+  · simp [hx, not_lt.mpr hx]
+  · by_cases hy : min a.mx.y b.mx.y ≤ max a.mn.y b.mn.y
+    · simp [hx, hy, not_lt.mpr hy]
+    · simp only [hx, hy, decide_false, Bool.or_self, Bool.false_eq_true, if_false]
+      refine ⟨by simp [not_le.mp hx, not_le.mp hy], ?_⟩
+      intro r hr
+      simp at hr; subst hr
+      exact ⟨commonRect_lo_hi a b, not_le.mp hx, not_le.mp hy⟩
+
+/-! ### Extend is the lattice join -/
+
+/-- componentwise min of the Min corners and max of the Max corners -/
+def cw (a b : Box α) : Box α :=
+  ⟨⟨min a.mn.x b.mn.x, min a.mn.y b.mn.y⟩, ⟨max a.mx.x b.mx.x, max a.mx.y b.mx.y⟩⟩
+
+theorem extend_nonempty (a b : Box α) (hb : emptyB b = false) : a.extend (some b) = cw a b := by
+  obtain ⟨ex, ey⟩ := (not_emptyB b).1 hb
+  simp only [Box.extend, model_empty_eq, hb, Bool.false_eq_true, if_false, Box.extendPoint, cw]
+  have e1 : min (min a.mn.x b.mn.x) b.mx.x = min a.mn.x b.mn.x :=
+    min_eq_left (le_trans (min_le_right _ _) ex)
+  have e2 : min (min a.mn.y b.mn.y) b.mx.y = min a.mn.y b.mn.y :=
+    min_eq_left (le_trans (min_le_right _ _) ey)
+  have e3 : max (max a.mx.x b.mn.x) b.mx.x = max a.mx.x b.mx.x := by rw [max_assoc, max_eq_right ex]
+  have e4 : max (max a.mx.y b.mn.y) b.mx.y = max a.mx.y b.mx.y := by rw [max_assoc, max_eq_right ey]
+  rw [e1, e2, e3, e4]
+
+theorem cw_new_right (a : Box α) : cw a Box.new = a := by
+  simp [cw, Box.new, pinf_eq, ninf_eq]
+
+theorem cw_new_left (a : Box α) : cw Box.new a = a := by
+  simp [cw, Box.new, pinf_eq, ninf_eq]
+
+theorem new_eq_emptyBox : (Box.new : Box α) = emptyBox := rfl
+
+/-- for a canonical argument `Extend` is the componentwise formula -/
+theorem extend_canon (a b : Box α) (hb : Canon b) : a.extend (some b) = cw a b := by
+  rcases hb with hb | hb
+  · exact extend_nonempty a b hb
+  · rw [← new_eq_emptyBox] at hb; subst hb
+    cases he : emptyB (Box.new : Box α) with
+    | false => exact extend_nonempty a _ he
+    | true => rw [cw_new_right]; simp [Box.extend, model_empty_eq, he]
+
+theorem canon_cw (a b : Box α) (ha : Canon a) (hb : Canon b) : Canon (cw a b) := by
+  rcases ha with ha | ha
+  · left
+    obtain ⟨ex, ey⟩ := (not_emptyB a).1 ha
+    rw [not_emptyB]
+    exact ⟨le_trans (min_le_left _ _) (le_trans ex (le_max_left _ _)),
+           le_trans (min_le_left _ _) (le_trans ey (le_max_left _ _))⟩
+  · rw [← new_eq_emptyBox] at ha; subst ha; rw [cw_new_left]; exact hb
+
+theorem sub_new (c : Box α) : Sub (Box.new : Box α) c := by
+  rintro p ⟨h1, h2, h3, h4⟩
+  simp only [Box.new, pinf_eq, ninf_eq] at h1 h2 h3 h4
+  exact ⟨le_trans le_top h1, le_trans h2 bot_le, le_trans le_top h3, le_trans h4 bot_le⟩
+
+theorem canon_sub_iff (a c : Box α) (ha : Canon a) :
+    Sub a c ↔ (emptyB a = true ∨ (c.mn.x ≤ a.mn.x ∧ c.mn.y ≤ a.mn.y ∧ a.mx.x ≤ c.mx.x ∧ a.mx.y ≤ c.mx.y)) := by
+  cases he : emptyB a with
+  | true => simp [sub_of_empty a c he]
+  | false => simp [sub_iff_of_nonempty a c he]
+
+/-- **C04_extend_join.** For a canonical receiver `a` (a box with a point, or `NewBounds()`) and
+*any* argument `b` (nil excluded), `a.Extend(b)` is the least upper bound of `a` and `b` in the
+inclusion order of boxes, and it is again canonical. -/
+theorem C04_extend_join (a b : Box α) (ha : Canon a) :
+    IsJoin a b (a.extend (some b)) ∧ Canon (a.extend (some b)) := by
+  cases hb : emptyB b with
+  | true =>
+    have e : a.extend (some b) = a := by simp [Box.extend, model_empty_eq, hb]
+    rw [e]
+    exact ⟨⟨fun p h => h, sub_of_empty b a hb, fun c h _ => h⟩, ha⟩
+  | false =>
+    rw [extend_nonempty a b hb]
+    refine ⟨?_, canon_cw a b ha (Or.inl hb)⟩
+    obtain ⟨bx, by'⟩ := (not_emptyB b).1 hb
+    have hj : emptyB (cw a b) = false := by
+      rw [not_emptyB]
+      exact ⟨le_trans (min_le_right _ _) (le_trans bx (le_max_right _ _)),
+             le_trans (min_le_right _ _) (le_trans by' (le_max_right _ _))⟩
+    refine ⟨?_, ?_, ?_⟩
+    · rcases ha with ha | ha
+      · rw [sub_iff_of_nonempty a _ ha]
+        exact ⟨min_le_left _ _, min_le_left _ _, le_max_left _ _, le_max_left _ _⟩
+      · rw [← new_eq_emptyBox] at ha; subst ha; exact sub_new _
+    · rw [sub_iff_of_nonempty b _ hb]
+      exact ⟨min_le_right _ _, min_le_right _ _, le_max_right _ _, le_max_right _ _⟩
+    · intro c hac hbc
+      rw [sub_iff_of_nonempty _ c hj]
+      rw [sub_iff_of_nonempty b c hb] at hbc
+      obtain ⟨b1, b2, b3, b4⟩ := hbc
+      rcases ha with ha | ha
+      · rw [sub_iff_of_nonempty a c ha] at hac
+        obtain ⟨a1, a2, a3, a4⟩ := hac
+        exact ⟨le_min a1 b1, le_min a2 b2, max_le a3 b3, max_le a4 b4⟩
+      · rw [← new_eq_emptyBox] at ha; subst ha
+        rw [cw_new_left]; exact ⟨b1, b2, b3, b4⟩
+
+/-- **C04_extend_laws.** On canonical boxes `Extend` is commutative, associative and idempotent, the
+empty box is its identity, and a nil argument changes nothing. -/
+theorem C04_extend_laws (a b c : Box α) (ha : Canon a) (hb : Canon b) (hc : Canon c) :
+    a.extend (some b) = b.extend (some a) ∧
+    (a.extend (some b)).extend (some c) = a.extend (some (b.extend (some c))) ∧
+    a.extend (some a) = a ∧
+    a.extend (some Box.new) = a ∧ (Box.new : Box α).extend (some a) = a ∧
+    a.extend none = a := by
+  have hn : Canon (Box.new : Box α) := Or.inr rfl
+  have hbc : Canon (b.extend (some c)) := by rw [extend_canon b c hc]; exact canon_cw b c hb hc
+  rw [extend_canon a b hb, extend_canon b a ha, extend_canon _ c hc, extend_canon b c hc,
+      extend_canon a a ha, extend_canon a _ hn, extend_canon _ a ha]
+  rw [extend_canon b c hc] at hbc
+  rw [extend_canon a _ hbc]
+  refine ⟨?_, ?_, ?_, cw_new_right a, cw_new_left a, rfl⟩
+  · simp [cw, min_comm, max_comm]
+  · simp [cw, min_assoc, max_assoc]
+  · simp [cw]
+
+/-- An empty argument of any shape (not only `NewBounds()`) is ignored. -/
+theorem C04_extend_empty (a b : Box α) (hb : b.empty = true) : a.extend (some b) = a := by
+  simp [Box.extend, hb]
+
+/-! ## Bounds() -/
+
+mutual
+theorem bounds_inv (g : Geom α) (h : noNil g = true) (hb : boxesNonEmpty g = true) :
+    ∃ b, boundsG g = .ok b ∧ Inv (vertices g) b := by
+  cases g with
+  | nil => simp [noNil] at h
+  | point p => exact ⟨_, rfl, Inv.ofPoint p⟩
+  | multiPoint ps => exact ⟨_, rfl, by simpa [vertices, Box.extendPoints] using Inv.new.extendPoints ps⟩
+  | lineString ps => exact ⟨_, rfl, by simpa [vertices] using Inv.new.extendPoints ps⟩
+  | multiLineString ls => exact ⟨_, rfl, by simpa [vertices] using Inv.new.foldLines ls⟩
+  | polygon rs => exact ⟨_, rfl, by simpa [vertices] using Inv.new.extendPointss rs⟩
+  | multiPolygon ps => exact ⟨_, rfl, by simpa [vertices] using Inv.new.foldPolys ps⟩
+  | bounds mn mx => exact ⟨_, rfl, Inv.corners mn mx (by simpa [boxesNonEmpty] using hb)⟩
+  | collection gs =>
+    have := boundsL_inv gs (by simpa [noNil] using h) (by simpa [boxesNonEmpty] using hb) [] Box.new Inv.new
+    simpa [boundsG, vertices] using this
+theorem boundsL_inv (gs : List (Geom α)) (h : noNilL gs = true) (hb : boxesNonEmptyL gs = true)
+    (S : List (Pt α)) (b : Box α) (hi : Inv S b) :
+    ∃ b', boundsL gs b = .ok b' ∧ Inv (S ++ verticesL gs) b' := by
+  cases gs with
+  | nil => exact ⟨b, rfl, by simpa [verticesL] using hi⟩
+  | cons g gs =>
+    simp only [noNilL, Bool.and_eq_true] at h
+    simp only [boxesNonEmptyL, Bool.and_eq_true] at hb
+    obtain ⟨bg, e, hg⟩ := bounds_inv g h.1 hb.1
+    obtain ⟨b', e', h'⟩ := boundsL_inv gs h.2 hb.2 (S ++ vertices g) (b.extend (some bg)) (hi.extend hg)
+    exact ⟨b', by simp [boundsL, e, e', bind, Except.bind], by simpa [verticesL, List.append_assoc] using h'⟩
+end
+
+/-- **C04_bounds.** For every geometry (no nil members; every `*Bounds` used as a geometry has a
+point) `Bounds()` does not panic and returns the smallest box containing exactly the vertices —
+the empty box `(+Inf,+Inf)-(-Inf,-Inf)` when there are none — whatever empty members it has. -/
+theorem C04_bounds (g : Geom α) (h : noNil g = true) (hb : boxesNonEmpty g = true) :
+    ∃ b, boundsG g = .ok b ∧ IsEnvelope (vertices g) b := by
+  obtain ⟨b, e, hi⟩ := bounds_inv g h hb
+  exact ⟨b, e, hi.isEnvelope⟩
+
+/-- … in particular `Bounds()` is empty iff there is no vertex (given `-Inf < +Inf`). -/
+theorem C04_bounds_empty_iff (hne : (⊥ : α) < ⊤) (g : Geom α) (h : noNil g = true)
+    (hb : boxesNonEmpty g = true) :
+    ∃ b, boundsG g = .ok b ∧ (b.empty = true ↔ vertices g = []) := by
+  obtain ⟨b, e, hi⟩ := bounds_inv g h hb
+  refine ⟨b, e, ?_⟩
+  rw [model_empty_eq]
+  constructor
+  · intro he
+    cases hv : vertices g with
+    | nil => rfl
+    | cons v vs =>
+      have := hi.nonempty_of_mem (v := v) (by simp [hv])
+      simp [he] at this
+  · intro hv
+    have := hi.isEnvelope
+    rw [hv] at this
+    simp only [IsEnvelope] at this
+    subst this
+    simp [emptyB, emptyBox, pinf_eq, ninf_eq, not_le.mpr hne]
+
+/-- A `*Bounds` without points used as a geometry is outside `C04_bounds`: `Len()` is 4 and the
+envelope of the four "corners" of `NewBounds()` is the whole plane, not the box itself. -/
+theorem C04_bounds_emptybox_counterexample (hne : (⊥ : α) < ⊤) :
+    boundsG (.bounds ⟨⊤, ⊤⟩ ⟨⊥, ⊥⟩ : Geom α) = .ok ⟨⟨⊤, ⊤⟩, ⟨⊥, ⊥⟩⟩ ∧
+    ¬ IsEnvelope (vertices (.bounds ⟨⊤, ⊤⟩ ⟨⊥, ⊥⟩ : Geom α)) ⟨⟨⊤, ⊤⟩, ⟨⊥, ⊥⟩⟩ := by
+  refine ⟨rfl, ?_⟩
+  simp only [vertices, IsEnvelope]
+  rintro ⟨h, _⟩
+  have := (h ⟨⊤, ⊤⟩ (by simp)).2.1
+  simp only at this
+  exact absurd this (not_le.mpr hne)
+
+end boxes
+
 end GeomV.C04
